@@ -8,6 +8,7 @@ import typing
 
 from ..build import Build, BuildError
 from ..core import Result
+from ..values import hints_of
 from ..values import attr_names
 
 PROP = "C13"
@@ -171,7 +172,7 @@ def check_build(b: Build, importer, targets, sites, res: Result, w, rel_of):
     holder_full = fq(importer, "Holder")
     try:
         H = b.bp_class(holder_full)
-        hints = H._type_hints()
+        hints = hints_of(H)
     except Exception as e:
         res.violation("resolve", ["type-hints", "raised:" + type(e).__name__, "all"],
                       f"{holder_full}: resolving type hints raised {e!r}\n{traceback.format_exc()[-600:]}", w)
